@@ -363,6 +363,32 @@ func C19(c *core.Ctx) {
 				Seed: int(c.Seed)*1000 + id, Procs: []int{16, 2, 1}[s%3]})
 		}
 	}
+	// a few large files (hundreds of directives each) whose directives fall on the same days: the days of the journal
+	// are filled from several files at once; the totals are asserted
+	for k := 0; k < c.Pick(1, 3); k++ {
+		nparts, nd := 3+k, 320+40*k
+		lay := &kj.Layout{Root: "main.knut", Files: map[string]string{}, Order: []string{"main.knut"}}
+		var main strings.Builder
+		main.WriteString("2020-01-01 open Assets:Depot\n2020-01-01 open Equity:Equity\n\n")
+		for f := 0; f < nparts; f++ {
+			name := fmt.Sprintf("big/b%d.knut", f)
+			fmt.Fprintf(&main, "include \"%s\"\n", name)
+			var pb strings.Builder
+			for t := 0; t < nd; t++ {
+				fmt.Fprintf(&pb, "2020-02-%02d price Q%d %d.%02d CHF\n", 1+t%20, f, 1+t%7, t%100)
+				fmt.Fprintf(&pb, "2020-02-%02d \"buy %d %d\"\nEquity:Equity Assets:Depot 1 LOT\n\n", 1+t%20, f, t)
+			}
+			lay.Files[name] = pb.String()
+			lay.Order = append(lay.Order, name)
+		}
+		fmt.Fprintf(&main, "\n2020-03-20 balance Assets:Depot %d LOT\n", nparts*nd)
+		lay.Files["main.knut"] = main.String()
+		for s := 0; s < c.Pick(12, 40); s++ {
+			id++
+			scs = append(scs, c19Scenario{ID: id, Layout: lay, Cmd: [][]string{{"check"}, {"balance", "--color=false"}, {"print"}}[s%3], Variant: "none", TrxExpected: nparts * nd, Files: nparts + 1,
+				Seed: int(c.Seed)*1000 + id, Procs: []int{16, 4, 16, 8}[s%4]})
+		}
+	}
 	// many files that first mention the same fresh commodities at the same time, with an assertion on the totals:
 	// the journal that is processed must be the union of the files (one commodity per name)
 	for k := 0; k < c.Pick(2, 6); k++ {
